@@ -189,9 +189,28 @@ type fnExec struct {
 	pendingInv [][2]interface{}
 	warnings  []string
 	spawns    map[string]*spawnInfo
+	kb        int // key base for block-indexed maps (non-zero while executing an inlined callee)
+	ck        int // current block key (kb + block index)
+	inl       *inlineCtx
+	inlineCount int
+	inlineStack []*ssa.Function
+	oblPrefix string
+}
+
+type inlineCtx struct {
+	rets []inlineRet
+	sink *val
+	sent bool
+}
+
+type inlineRet struct {
+	cond    string
+	st      *state
+	results []val
 }
 
 type spawnInfo struct {
+	fn   *ssa.Function
 	ct   *Contract
 	info *calleeInfo
 	args []val
@@ -249,7 +268,7 @@ func (fx *fnExec) assume(t string) {
 	if t == "true" {
 		return
 	}
-	fx.assert(implies(fx.reach[fx.curBlk], t))
+	fx.assert(implies(fx.reach[fx.ck], t))
 }
 
 func (fx *fnExec) define(name, sort, term string) string {
@@ -591,9 +610,9 @@ func (fx *fnExec) wellTyped(term string, t types.Type, alloc string) string {
 // ---------------------------------------------------------------- obligations
 
 func (fx *fnExec) addObl(kind, anchor string, props []string, goal string, pos token.Pos, src string) *Obligation {
-	name := fx.g.relKey(fx.fn) + ":" + kind + ":" + anchor
+	name := fx.g.relKey(fx.rootFn()) + ":" + kind + ":" + fx.oblPrefix + anchor
 	name = fx.g.pkgShort(fx.fn) + "." + name
-	part := oblPart{blk: fx.curBlk, nassert: len(fx.asserts), reach: fx.reach[fx.curBlk], neg: not(goal), pos: pos}
+	part := oblPart{blk: fx.curBlk, nassert: len(fx.asserts), reach: fx.reach[fx.ck], neg: not(goal), pos: pos}
 	if o, ok := fx.oblByName[name]; ok {
 		o.Parts = append(o.Parts, part)
 		return o
@@ -824,6 +843,7 @@ func (fx *fnExec) run() (err error) {
 	fx.declare("alloc!0", "Int")
 	st.alloc = "alloc!0"
 	fx.curBlk = 0
+	fx.ck = 0
 	fx.reach[0] = "true"
 	fx.asserts = append(fx.asserts, assertion{-1, "(assert (>= alloc!0 0))"})
 	fx.params = map[string]sval{}
@@ -941,17 +961,13 @@ func (fx *fnExec) run() (err error) {
 }
 
 func (fx *fnExec) mergeStates(b *ssa.BasicBlock) *state {
-	type inc struct {
-		cond string
-		st   *state
-	}
 	var ins []inc
 	for _, p := range b.Preds {
-		k := [2]int{p.Index, b.Index}
-		if fx.backEdge[k] {
+		k := [2]int{fx.kb + p.Index, fx.kb + b.Index}
+		if fx.kb == 0 && fx.backEdge[k] {
 			continue
 		}
-		ps, ok := fx.out[p.Index]
+		ps, ok := fx.out[fx.kb+p.Index]
 		if !ok {
 			continue // unreachable predecessor
 		}
@@ -964,9 +980,18 @@ func (fx *fnExec) mergeStates(b *ssa.BasicBlock) *state {
 	for _, i := range ins {
 		conds = append(conds, i.cond)
 	}
-	r := fmt.Sprintf("reach!b%d", b.Index)
+	r := fmt.Sprintf("reach!b%d", fx.kb+b.Index)
 	fx.define(r, "Bool", or(conds...))
-	fx.reach[b.Index] = r
+	fx.reach[fx.kb+b.Index] = r
+	return fx.mergeN(ins)
+}
+
+type inc struct {
+	cond string
+	st   *state
+}
+
+func (fx *fnExec) mergeN(ins []inc) *state {
 	if len(ins) == 1 {
 		return ins[0].st.clone()
 	}
@@ -1051,17 +1076,20 @@ func deref(t types.Type) types.Type {
 }
 
 func (fx *fnExec) execBlock(b *ssa.BasicBlock) {
-	fx.curBlk = b.Index
+	if fx.kb == 0 {
+		fx.curBlk = b.Index
+	}
+	fx.ck = fx.kb + b.Index
 	var st *state
 	if b.Index == 0 {
-		st = fx.out[-1].clone()
+		st = fx.out[fx.kb-1].clone()
 	} else {
 		st = fx.mergeStates(b)
 		if st == nil {
 			return
 		}
 	}
-	if li, ok := fx.loops[b.Index]; ok {
+	if li, ok := fx.loops[b.Index]; ok && fx.kb == 0 {
 		st = fx.loopHead(li, st)
 	}
 	for _, in := range b.Instrs {
@@ -1289,7 +1317,10 @@ func (fx *fnExec) loopHead(li *loopInfo, st *state) *state {
 	// entry obligations
 	c0 := mk(st)
 	for _, inv := range invs {
-		v := c0.eval(inv.Expr)
+		v, ok := fx.tryEval(c0, inv.Expr, fmt.Sprintf("loop %d invariant [%s]", li.ordinal, inv.Label))
+		if !ok {
+			continue
+		}
 		fx.addObl("loop", fmt.Sprintf("%d:inv[%s]:entry", li.ordinal, inv.Label), fx.clauseProps(inv, fx.allProps()), v.term, b.Instrs[0].Pos(), inv.Src)
 	}
 	var rangeInv func(cur *state) string
@@ -1343,7 +1374,10 @@ func (fx *fnExec) loopHead(li *loopInfo, st *state) *state {
 	// assume invariants
 	c1 := mk(h)
 	for _, inv := range invs {
-		v := c1.eval(inv.Expr)
+		v, ok := fx.tryEval(c1, inv.Expr, fmt.Sprintf("loop %d invariant [%s]", li.ordinal, inv.Label))
+		if !ok {
+			continue
+		}
 		fx.assume(v.term)
 	}
 	if rangeInv != nil {
@@ -1533,14 +1567,17 @@ func (fx *fnExec) cellStoredIn(li *loopInfo, al *ssa.Alloc) bool {
 
 func (fx *fnExec) backEdgeObls(li *loopInfo, st *state, cond string, pos token.Pos) {
 	b := li.head
-	saveReach := fx.reach[fx.curBlk]
+	saveReach := fx.reach[fx.ck]
 	// reach for obligations on this edge = edge condition
-	fx.reach[fx.curBlk] = cond
-	defer func() { fx.reach[fx.curBlk] = saveReach }()
+	fx.reach[fx.ck] = cond
+	defer func() { fx.reach[fx.ck] = saveReach }()
 	c := &specCtx{fx: fx, cur: st, old: fx.entry, entry: li.entry, names: fx.params, locals: fx.localLookup(st, b), pkg: fx.pkg}
 	if li.spec != nil {
 		for _, inv := range li.spec.Invariants {
-			v := c.eval(inv.Expr)
+			v, ok := fx.tryEval(c, inv.Expr, fmt.Sprintf("loop %d invariant [%s]", li.ordinal, inv.Label))
+			if !ok {
+				continue
+			}
 			fx.addObl("loop", fmt.Sprintf("%d:inv[%s]:preserved", li.ordinal, inv.Label), fx.clauseProps(inv, fx.allProps()), v.term, pos, inv.Src)
 		}
 	}
@@ -1605,4 +1642,156 @@ func (fx *fnExec) termOf(st *state, v ssa.Value) string {
 		fx.fail("address value %s used as term", v.Name())
 	}
 	return r.term
+}
+
+func (fx *fnExec) rootFn() *ssa.Function {
+	if len(fx.inlineStack) > 0 {
+		return fx.inlineStack[0]
+	}
+	return fx.fn
+}
+
+// canInline: loop-free in-repo function that can be executed in place of a contract.
+func (fx *fnExec) canInline(f *ssa.Function) bool {
+	if f == nil || len(f.Blocks) == 0 || len(fx.inlineStack) >= 4 || f == fx.rootFn() {
+		return false
+	}
+	for _, s := range fx.inlineStack {
+		if s == f {
+			return false
+		}
+	}
+	if f == fx.fn {
+		return false
+	}
+	for _, b := range f.Blocks {
+		for _, s := range b.Succs {
+			if s.Dominates(b) {
+				return false
+			}
+		}
+	}
+	return true
+}
+
+// inlineCall executes the body of a loop-free callee in place (used when the callee has no usable
+// contract). Obligations raised inside are attributed to the calling function with an "inl(f)/" prefix.
+func (fx *fnExec) inlineCall(st *state, in ssa.Instruction, f *ssa.Function, args []val, sink *val) val {
+	fx.inlineCount++
+	base := fx.inlineCount * 1000000
+	saveKb, saveCk, saveFn, saveInl, savePrefix := fx.kb, fx.ck, fx.fn, fx.inl, fx.oblPrefix
+	saveDefers := st.defers
+	entryReach := fx.reach[fx.ck]
+	if len(fx.inlineStack) == 0 {
+		fx.inlineStack = append(fx.inlineStack, fx.fn)
+	}
+	fx.inlineStack = append(fx.inlineStack, f)
+	n := 0
+	for _, p := range f.Params {
+		if n < len(args) {
+			fx.vals[p] = args[n]
+		}
+		n++
+	}
+	for _, p := range f.FreeVars {
+		if n < len(args) {
+			fx.vals[p] = args[n]
+		}
+		n++
+	}
+	ctx := &inlineCtx{sink: sink}
+	fx.kb, fx.inl, fx.fn = base, ctx, f
+	fx.oblPrefix = savePrefix + "inl(" + f.Name() + ")/"
+	fx.reach[base] = entryReach
+	st.defers = nil
+	fx.out[base-1] = st
+	// topological order (no back edges)
+	visited := map[int]bool{}
+	var post []*ssa.BasicBlock
+	var dfs func(b *ssa.BasicBlock)
+	dfs = func(b *ssa.BasicBlock) {
+		visited[b.Index] = true
+		for _, s := range b.Succs {
+			if !visited[s.Index] {
+				dfs(s)
+			}
+		}
+		post = append(post, b)
+	}
+	dfs(f.Blocks[0])
+	for i := len(post) - 1; i >= 0; i-- {
+		fx.execBlock(post[i])
+	}
+	fx.kb, fx.ck, fx.fn, fx.inl, fx.oblPrefix = saveKb, saveCk, saveFn, saveInl, savePrefix
+	fx.inlineStack = fx.inlineStack[:len(fx.inlineStack)-1]
+	if len(fx.inlineStack) == 1 {
+		fx.inlineStack = nil
+	}
+	fx.assumptionsUsed["function without a contract executed in place (inlined): "+f.String()] = true
+	if len(ctx.rets) == 0 {
+		// callee never returns normally on any path
+		st.defers = saveDefers
+		return val{term: "unit"}
+	}
+	var ins []inc
+	for _, r := range ctx.rets {
+		ins = append(ins, inc{r.cond, r.st})
+	}
+	merged := fx.mergeN(ins)
+	merged.defers = saveDefers
+	*st = *merged
+	// results
+	nres := len(ctx.rets[0].results)
+	mergeRes := func(i int) val {
+		t := ctx.rets[len(ctx.rets)-1].results[i]
+		if t.addr != nil {
+			return t
+		}
+		term := t.term
+		for k := len(ctx.rets) - 2; k >= 0; k-- {
+			term = "(ite " + ctx.rets[k].cond + " " + ctx.rets[k].results[i].term + " " + term + ")"
+		}
+		if len(ctx.rets) > 1 && t.typ != nil {
+			term = fx.define(fx.fresh("inlres", fx.d.SortOf(t.typ)), fx.d.SortOf(t.typ), term)
+		}
+		return val{term: term, typ: t.typ}
+	}
+	switch nres {
+	case 0:
+		return val{term: "unit"}
+	case 1:
+		return mergeRes(0)
+	}
+	var res val
+	for i := 0; i < nres; i++ {
+		res.tuple = append(res.tuple, mergeRes(i))
+	}
+	res.typ = f.Signature.Results()
+	return res
+}
+
+// tryEval evaluates a contract clause; a clause that does not resolve against the current source
+// (unknown local, changed capture list, ...) is reported and skipped instead of aborting the function:
+// the function is then not counted as verified, but its other obligations are still checked.
+func (fx *fnExec) tryEval(c *specCtx, e Expr, what string) (v sval, ok bool) {
+	defer func() {
+		if r := recover(); r != nil {
+			if ee, isE := r.(engineErr); isE && strings.HasPrefix(string(ee), "spec:") {
+				msg := fmt.Sprintf("%s: clause %s does not resolve: %s", fx.rootFn().String(), what, string(ee))
+				dup := false
+				for _, w := range fx.warnings {
+					if w == msg {
+						dup = true
+					}
+				}
+				if !dup {
+					fx.warnings = append(fx.warnings, msg)
+				}
+				ok = false
+				return
+			}
+			panic(r)
+		}
+	}()
+	return c.eval(e), true
 }
